@@ -464,6 +464,10 @@ func c05(env *Env, rep *Report) {
 				distinct++
 			}
 		}
+		// two Basic requests in flight at once: every order of {request i reaches the backend, backend answers i}
+		if cfg.has("local") && !cfg.has("openid") {
+			distinct += w.basicInterleavings(viol, rep)
+		}
 		// NTLM histories
 		for _, scheme := range []string{"NTLM", "Negotiate"} {
 			type h struct {
@@ -645,4 +649,105 @@ func (w *c05World) ntlmReuse() (bool, string) {
 		return true, "forged authenticate message naming " + userB + " reached the handler"
 	}
 	return false, fmt.Sprintf("status %d", r.Status)
+}
+
+// basicInterleavings: two clients authenticate with Basic at the same time; the harness decides when each
+// request reaches the authentication backend and when the backend answers it (the scripted service is gated),
+// and goes through all six orders of those four events, for two pairs of principals. Each tunnel must carry
+// the user whose credentials that very request presented, and an unconfirmed request never reaches the handler.
+func (w *c05World) basicInterleavings(viol func(kind, detail string), rep *Report) int {
+	type princ struct{ user, pass, want string }
+	pairs := [][2]princ{
+		{{userA, passA, userA}, {userB, passB, userB}},
+		{{userA, passA, userA}, {userB, "wrong-password", ""}},
+		{{userA, "wrong-password", ""}, {userB, passB, userB}},
+	}
+	orders := [][]string{{"S0", "S1", "R0", "R1"}, {"S0", "S1", "R1", "R0"}, {"S1", "S0", "R0", "R1"}, {"S1", "S0", "R1", "R0"}, {"S0", "R0", "S1", "R1"}, {"S1", "R1", "S0", "R0"}}
+	n := 0
+	a := w.auth
+	for pi, pair := range pairs {
+		for _, ord := range orders {
+			n++
+			rep.add("executions", 1)
+			a.mu.Lock()
+			a.Gate = true
+			a.Arrived = make(chan string, 4)
+			a.Release = map[string]chan struct{}{pair[0].user: make(chan struct{}, 2), pair[1].user: make(chan struct{}, 2)}
+			a.mu.Unlock()
+			conns := make([]net.Conn, 2)
+			brs := make([]*bufio.Reader, 2)
+			resp := make([]chan RawResponse, 2)
+			infraFail := ""
+			for _, ev := range ord {
+				i := int(ev[1] - '0')
+				switch ev[0] {
+				case 'S':
+					c, err := w.gw.Dial()
+					if err != nil {
+						infraFail = "dial"
+						break
+					}
+					c.SetDeadline(time.Now().Add(30 * time.Second))
+					conns[i], brs[i] = c, bufio.NewReader(c)
+					raw, _ := methodRequest("ws", []string{basicHdr(pair[i].user, pair[i].pass)})
+					c.Write([]byte(raw))
+					resp[i] = make(chan RawResponse, 1)
+					go func(i int) { resp[i] <- ReadResponse(brs[i]) }(i)
+					select {
+					case u := <-a.Arrived:
+						if u != pair[i].user {
+							infraFail = "backend saw " + u + " for request of " + pair[i].user
+						}
+					case <-time.After(10 * time.Second):
+						infraFail = "request did not reach the authentication backend"
+					}
+				case 'R':
+					a.Release[pair[i].user] <- struct{}{}
+					// the answer is on its way: wait for this request's response before the next event
+					select {
+					case r := <-resp[i]:
+						resp[i] <- r
+					case <-time.After(10 * time.Second):
+						infraFail = "no response after the backend answered"
+					}
+				}
+				if infraFail != "" {
+					break
+				}
+			}
+			a.mu.Lock()
+			a.Gate = false
+			a.mu.Unlock()
+			what := fmt.Sprintf("principals (%s,%v) (%s,%v), event order %v", pair[0].user, pair[0].want != "", pair[1].user, pair[1].want != "", ord)
+			if infraFail != "" {
+				for _, c := range conns {
+					if c != nil {
+						c.Close()
+					}
+				}
+				if cr := w.gw.Crashed(); cr != "" {
+					viol("panic", cr)
+					continue
+				}
+				infra("C05 interleavings: %s (%s)", infraFail, what)
+			}
+			for i := 0; i < 2; i++ {
+				r := <-resp[i]
+				reached := r.Status == 101
+				rep.outcome(fmt.Sprintf("%s interleaving pair=%d order=%v req=%d reached=%v", w.cfg, pi, ord, i, reached))
+				switch {
+				case pair[i].want == "" && reached:
+					viol("handler-reached-with-unconfirmed-credentials/concurrent-basic", fmt.Sprintf("request %d of %s", i, what))
+				case pair[i].want != "" && !reached:
+					viol("confirmed-basic-credentials-do-not-reach-handler/concurrent-basic", fmt.Sprintf("request %d of %s: status %d", i, what, r.Status))
+				case reached:
+					if who := w.askHost(conns[i], brs[i], pair[i].want); who != pair[i].want {
+						viol("tunnel-does-not-carry-confirmed-user/concurrent-basic", fmt.Sprintf("request %d of %s presented the credentials of %s; asking for that user's host: %s", i, what, pair[i].want, who))
+					}
+				}
+				conns[i].Close()
+			}
+		}
+	}
+	return n
 }
